@@ -55,7 +55,10 @@ func extScripted() [][]extOp {
 	// Truncate (ext4.FileSystem.Truncate): shrink, regrow by appending, to zero, extend past the end
 	dd := []extOp{{A: "Create", P: "a"}, {A: "Append", P: "a", Len: 9, Tag: 1}, {A: "Truncate", P: "a", Off: 5}, {A: "Append", P: "a", Len: 3, Tag: 2}, {A: "Truncate", P: "a", Off: 0},
 		{A: "Append", P: "a", Len: 5, Tag: 3}, {A: "Truncate", P: "a", Off: 12}, {A: "WriteAt", P: "a", Off: 7, Len: 3, Tag: 4}, {A: "Create", P: "b"}, {A: "Append", P: "b", Len: 4, Tag: 5},
-		{A: "Truncate", P: "a", Off: 1}, {A: "Append", P: "b", Len: 9, Tag: 6}, {A: "Remove", P: "a"}, {A: "BigFile", K: 30}, {A: "Remove", P: "b"}}
+		{A: "Truncate", P: "a", Off: 1}, {A: "Append", P: "b", Len: 9, Tag: 6}, {A: "Remove", P: "a"}, {A: "BigFile", K: 30}, {A: "Remove", P: "b"},
+		// Truncate aimed at a fast symlink, a directory and a symlink whose target lives in a block: nothing may change
+		{A: "Symlink", P: "l", T: "t1"}, {A: "Truncate", P: "l", Off: 0}, {A: "Mkdir", P: "d"}, {A: "Truncate", P: "d", Off: 0}, {A: "Symlink", P: "d/l", T: "t255"},
+		{A: "Truncate", P: "d/l", Off: 1}, {A: "Remove", P: "d/l"}, {A: "Remove", P: "d"}, {A: "Remove", P: "l"}}
 	// a file whose extent tree gets index blocks and a second level; a volume filled until writes are refused
 	ee := []extOp{{A: "Create", P: "a"}, {A: "Append", P: "a", Len: 5, Tag: 1}, {A: "ManyExtents", K: 260}, {A: "Mkdir", P: "d"}, {A: "Create", P: "d/a"}, {A: "Append", P: "d/a", Len: 4, Tag: 2},
 		{A: "Full"}, {A: "Remove", P: "d/a"}, {A: "Append", P: "a", Len: 4, Tag: 3}, {A: "Remove", P: "d"}, {A: "Remove", P: "a"}}
